@@ -3,8 +3,8 @@ From Coq Require Import List Bool Ascii NArith.
 From TxVerif Require Import Lib.Bytes Lib.Verdict Spec.Rfc1928 Spec.C06.
 Import ListNotations.
 
-Record case := { c_ty : rtype; c_t : target; c_port : N; c_obs : obs; c_greet : bytes }.
+Record case := { c_ty : rtype; c_t : target; c_port : N; c_obs : obs; c_greet : bytes; c_method : list bytes }.
 
 Definition check (c : case) : verdict :=
   if negb (wf_targetb (c_t c)) then VSkip else
-  mk_verdict None (oracle (c_ty c) (c_t c) (c_port c) (c_obs c) && beqb (c_greet c) greeting_noauth).
+  mk_verdict None (oracle_full (c_ty c) (c_t c) (c_port c) (concat (c_method c)) (c_obs c) && beqb (c_greet c) greeting_noauth).
